@@ -172,8 +172,12 @@ func runC05(r resIface, c *c05case, rng *prng.R, scratch string) {
 	}
 	// the source is deliberately left open: the tool's reconnect loop of this case lives on after the case, and
 	// a freed port could be handed to a later case's source, which would then see a stranger's PSYNC
+	drops := []int64{int64(c.Stream / 2)} // the link dies after half of the stream; the rest must arrive over the resumed link
+	if c.Index%8 == 2 && c.Stream >= 8 {
+		drops = append(drops, int64(c.Stream/2+c.Stream/4)) // ... and the resumed link dies as well
+	}
 	if c.Drop {
-		src.DropAfter(int64(c.Stream / 2)) // the link dies after half of the stream; the rest must arrive over the resumed link
+		src.DropAfterEach(drops...)
 	}
 	src.Feed(stream)
 	watchdog := 60*time.Second + time.Duration(c.N/200000)*time.Second
@@ -266,9 +270,19 @@ func runC05(r resIface, c *c05case, rng *prng.R, scratch string) {
 				r.Violation(sig("resume-runid-wrong"), fmt.Sprintf("resume asked PSYNC %q %d, the id announced by the source is %q", ps[1].RunID, ps[1].Offset, sc.RunID), c)
 				return
 			}
-			if wantOff := sc.StartOffset + int64(c.Stream/2) + 1; ps[1].Offset != wantOff {
-				r.Violation(sig("resume-offset-wrong"), fmt.Sprintf("resume asked PSYNC offset %d; announced start %d + %d bytes received + 1 = %d", ps[1].Offset, sc.StartOffset, c.Stream/2, wantOff), c)
+			if len(ps) < 1+len(drops) {
+				r.Violation(sig("no-resume-after-drop"), fmt.Sprintf("all bytes arrived although the link was dropped %d times, yet only %d PSYNCs were seen", len(drops), len(ps)), c)
 				return
+			}
+			for k, at := range drops {
+				// every resume asks for the announced start + all bytes received so far + 1, however many links came before
+				if wantOff := sc.StartOffset + at + 1; ps[1+k].Offset != wantOff || ps[1+k].RunID != sc.RunID {
+					r.Violation(sig(fmt.Sprintf("resume-offset-wrong|resume=%d", k+1)), fmt.Sprintf("resume %d asked PSYNC %q %d; announced start %d + %d bytes received + 1 = %d", k+1, ps[1+k].RunID, ps[1+k].Offset, sc.StartOffset, at, wantOff), c)
+					return
+				}
+			}
+			if len(drops) > 1 {
+				r.Count("second_resumes_observed", 1)
 			}
 			r.Count("resumes_observed", 1)
 		}
@@ -486,7 +500,7 @@ func c05casesChild(raw json.RawMessage, scratch string) {
 
 func c05(c *wk.Ctx) {
 	r := c.R
-	r.Rule = "a scripted master (lib/fakesource) answers PSYNC/SYNC with 0-5 keep-alive newlines before the reply and before '$n', +FULLRESYNC/+CONTINUE in several letter cases, n position-coded RDB bytes (1 .. 34 MiB, at 8191/8192/8193 and 65535/65536/65537) followed by position-coded stream bytes, written under fragmentation plans (all at once, 1-byte dribble, odd sizes, 8 KiB+-1, 1-byte writes across the '$n\\r\\n' header and the RDB/stream boundary, random) to the real sendPSyncCmd (hook), dump path (hook) and utils.Iocopy; the pipe content / dump file / leftover reader bytes are compared byte for byte, returned run id, offset and size with what was announced; every fourth psync case drops the link and checks the resume PSYNC id. distinct = (path, size class, newlines, reply word, fragmentation, reader pacing, drop)"
+	r.Rule = "a scripted master (lib/fakesource) answers PSYNC/SYNC with 0-5 keep-alive newlines before the reply and before '$n', +FULLRESYNC/+CONTINUE in several letter cases, n position-coded RDB bytes (1 .. 34 MiB, at 8191/8192/8193 and 65535/65536/65537) followed by position-coded stream bytes, written under fragmentation plans (all at once, 1-byte dribble, odd sizes, 8 KiB+-1, 1-byte writes across the '$n\\r\\n' header and the RDB/stream boundary, random) to the real sendPSyncCmd (hook), dump path (hook) and utils.Iocopy; the pipe content / dump file / leftover reader bytes are compared byte for byte, returned run id, offset and size with what was announced; every fourth psync case drops the link (every second of those drops the resumed link as well) and checks id and offset of every resume PSYNC. distinct = (path, size class, newlines, reply word, fragmentation, reader pacing, drop)"
 	onDeath := func(d wk.Death) {
 		if d.Result.TimedOut {
 			r.Inconcl("C05 child watchdog: " + wk.Tail(d.Result.Stderr, 300))
@@ -522,6 +536,7 @@ func c05(c *wk.Ctx) {
 		r.Floor("path:"+p, 15)
 	}
 	r.Floor("resumes_observed", 5)
+	r.Floor("second_resumes_observed", 2)
 	r.Floor("bytes_checked", 50000000)
 	r.Assume("payloads are position-coded so a slip, a duplicated block or a swap is located exactly; TLS links and the dead sendSyncCmd path are out of reach")
 	_ = strings.ToLower
